@@ -551,6 +551,12 @@ func (mi *muxInstance) search(req *httpprot.Request) *route {
 
 	ip := req.RealIP()
 
+	// The IP filter of the server applies to all requests, no matter the
+	// routing result is cached or not.
+	if !allowIP(mi.ipFilter, ip) {
+		return forbidden
+	}
+
 	// The key of the cache is req.Host + req.Method + req.URL.Path,
 	// and if a path is cached, we are sure it does not contain any
 	// headers.
@@ -565,10 +571,6 @@ func (mi *muxInstance) search(req *httpprot.Request) *route {
 		if r.path.ipFilterChain.Allow(ip) {
 			return r
 		}
-		return forbidden
-	}
-
-	if !allowIP(mi.ipFilter, ip) {
 		return forbidden
 	}
 
@@ -614,6 +616,14 @@ func (mi *muxInstance) search(req *httpprot.Request) *route {
 
 			return &route{code: 0, path: path}
 		}
+
+		// The IP filter of this rule could forbid other clients sending
+		// the same request, but a cached result only checks the IP filters
+		// of the rule and the path it was found in (or none at all), so
+		// the results found below cannot be cached.
+		if host.ipFilter != nil {
+			cacheable = false
+		}
 	}
 
 	if headerMismatch {
@@ -621,11 +631,15 @@ func (mi *muxInstance) search(req *httpprot.Request) *route {
 	}
 
 	if methodMismatch {
-		mi.putRouteToCache(req, methodNotAllowed)
+		if cacheable {
+			mi.putRouteToCache(req, methodNotAllowed)
+		}
 		return methodNotAllowed
 	}
 
-	mi.putRouteToCache(req, notFound)
+	if cacheable {
+		mi.putRouteToCache(req, notFound)
+	}
 	return notFound
 }
 
